@@ -14,6 +14,7 @@
                                     exception); ov <> 0: then t, m overwritten through FastRead
            (4 t m)          NewApplicationException(t, m)
            (5 bv t s)       foreign type with TypeId() = t, Error() = s; bv <> 0: struct by value, else pointer
+           (6 s)            an error of a slice type (not comparable) with Error() = s
      op    (0 p i)          PrependError(p, obj[i])
            (1 i)            NewProtocolExceptionWithErr(obj[i])
            (2)              nothing
@@ -25,7 +26,8 @@
    output  (obs same is)    obs  : one (kind tid hasTid msg text unwrapIdx) per object, the op's result last
                             same : rows of 0/1,  is : rows of 0/1
            (-1)             the helper panicked
-   kind: 0 errorString 1 wrapError 2 Transport 3 Protocol 4 Application 5 foreign pointer 6 foreign value *)
+   kind: 0 errorString 1 wrapError 2 Transport 3 Protocol 4 Application 5 foreign pointer 6 foreign value
+         7 slice-typed error ([a == b] is reported 0 when Go's comparison panics) *)
 From GV Require Import Lib.Bytes Lib.Res Corr.Val Gen.Consts Model.Errors.
 Open Scope Z_scope.
 
@@ -71,6 +73,7 @@ Definition mk_node (objs : list err) (d : cval) : option err :=
            end
   | L [I 4; I t; B m] => if in_signedb 32 t then Some (new_app id t m) else None
   | L [I 5; I bv; I t; B s] => if in_signedb 32 t then Some (Foreign (negb (bv =? 0)) id t s) else None
+  | L [I 6; B s] => Some (Opaque id s)
   | _ => None
   end.
 
@@ -87,7 +90,7 @@ Fixpoint mk_nodes (objs : list err) (ds : list cval) : option (list err) :=
 Definition kind_code (e : err) : Z :=
   match e with
   | Plain _ _ => 0 | Wrapped _ _ _ => 1 | Transport _ _ _ => 2 | Protocol _ _ _ _ => 3
-  | App _ _ _ => 4 | Foreign false _ _ _ => 5 | Foreign true _ _ _ => 6
+  | App _ _ _ => 4 | Foreign false _ _ _ => 5 | Foreign true _ _ _ => 6 | Opaque _ _ => 7
   end.
 
 Fixpoint find_idx (f : err -> bool) (l : list err) (k : Z) : Z :=
@@ -98,13 +101,21 @@ Fixpoint find_idx (f : err -> bool) (l : list err) (k : Z) : Z :=
 
 Definition bz (b : bool) : cval := I (if b then 1 else 0).
 
+(* object identity as the harness observes it: [==] where Go defines it, the address of the backing
+   array for the slice-typed error *)
+Definition ident (a b : err) : bool :=
+  match a, b with
+  | Opaque i _, Opaque j _ => (i =? j)%N
+  | _, _ => same a b
+  end.
+
 Definition observe1 (all : list err) (e : err) : cval :=
   L [I (kind_code e);
      I (match type_id e with Some t => t | None => 0 end);
      bz (match type_id e with Some _ => true | None => false end);
      B (match msg_of e with Some m => m | None => [] end);
      B (text e);
-     I (match unwrap e with None => -1 | Some u => find_idx (fun o => same o u) all 0 end)].
+     I (match unwrap e with None => -1 | Some u => find_idx (fun o => ident o u) all 0 end)].
 
 Definition observe (all : list err) : cval :=
   L [L (map (observe1 all) all);
@@ -150,6 +161,7 @@ Definition kind_after_prepend (k : Z) : Z :=
   else if k =? 3 then 3
   else if k =? 4 then 4
   else if (k =? 5) || (k =? 6) then 4     (* foreign exception with a type id becomes an application exception *)
+  else if k =? 7 then 0                   (* any other error: plain *)
   else -1.
 
 Definition idxs (n : nat) : list nat := seq 0 n.
@@ -193,6 +205,11 @@ Definition spec_wrap (obs : list ob) (sm im : list (list bool)) (i : nat) : bool
   match nth_error obs i, nth_error obs r with
   | Some oi, Some orr =>
       if okind oi =? 3 then at_ sm r i                       (* identity on protocol exceptions *)
+      else if okind oi =? 7 then
+           (* a non-comparable cause: errors.Unwrap returns that very object; errors.Is never matches it
+              (and must not panic: a panic is reported as 2, which no row decodes) *)
+           (okind orr =? 3) && (ounw orr =? Z.of_nat i) && negb (at_ im r i)
+           && forallb (fun j => implb (at_ im i j) (at_ im r j)) (idxs (length obs))
       else (okind orr =? 3)
            (* errors.Unwrap(r) == obj[i]; for by-value foreign exceptions == is structural, so the
               first equal object may have a smaller index *)
